@@ -270,7 +270,7 @@ var (
 	}
 	// The step function x<0 ? 0.0 : 1.0
 	stepFunction = func(input float64, auxParams []float64) float64 {
-		if math.Signbit(input) {
+		if input < 0.0 {
 			return 0.0
 		} else {
 			return 1.0
@@ -290,7 +290,7 @@ var (
 	}
 	// Finds maximal value among inputs and return it
 	maxModule = func(inputs []float64, auxParams []float64) []float64 {
-		maxVal := float64(math.MinInt64)
+		maxVal := math.Inf(-1)
 		for _, v := range inputs {
 			maxVal = math.Max(maxVal, v)
 		}
